@@ -36,9 +36,10 @@ def find_def(txt, name):
     """locate the definition of function `name`: returns (start, name_pos, body_open, body_close_exclusive)"""
     s = _strip_map(txt)
     for m in re.finditer(r'\b' + re.escape(name) + r'\s*\(', s):
-        # must be at brace depth 0
-        depth = s.count('{', 0, m.start()) - s.count('}', 0, m.start())
-        if depth != 0: continue
+        # (no global brace-depth test: #if/#else branches make brace counts unreliable; a definition is
+        #  recognised by the '{' that follows its parameter list, which a call or declaration never has)
+        prev = s[:m.start()].rstrip()
+        if prev and prev[-1] in '=(,!&|?:+-<>': continue        # expression context
         # match parens
         i = m.end() - 1; d = 0
         while i < len(s):
